@@ -1,0 +1,38 @@
+//go:build verif
+
+package actor
+
+// Machine-checked contracts for the actor package. Comment-only file: it adds
+// no code to the package. Read by /verif/govc (see /verif/DESIGN.md).
+
+// ---------------------------------------------------------------------------
+//@ property C08
+//@ load go.uber.org/atomic time
+
+// spec_backoff is the mathematical min(initial * 2^(n-1), max), computed in
+// 128-bit arithmetic so that the doubling cannot wrap.
+//@ spec func spec_backoff(n int64, i time.Duration, m time.Duration) time.Duration = ite(n-1 >= 64 || w128(i) << w128(n-1) > w128(m), m, i << uint64(n-1))
+
+//@ func backoffDelay(faults, initialDelay, maxDelay)
+//@   arith bv
+//@   requires initialDelay <= 0 || initialDelay <= maxDelay
+//@   ensures disabled-is-zero: (initialDelay <= 0 || faults < 1) ==> result == 0
+//@   ensures equals-min-formula: initialDelay > 0 && faults >= 1 ==> result == spec_backoff(faults, initialDelay, maxDelay)
+//@   ensures in-range: initialDelay > 0 && faults >= 1 ==> 0 < result && result <= maxDelay
+//@   ensures never-negative: result >= 0
+
+//@ lemma backoff-monotone bv: forall n int64, i time.Duration, m time.Duration :: n >= 1 && n < 9223372036854775807 && i > 0 && i <= m ==> spec_backoff(n, i, m) <= spec_backoff(n+1, i, m)
+//@ lemma backoff-capped bv: forall n int64, i time.Duration, m time.Duration :: n >= 1 && i > 0 && i <= m ==> spec_backoff(n, i, m) <= m && spec_backoff(n, i, m) >= i
+
+//@ func (*PID).recordFault(pid, window)
+//@   arith bv
+//@   ensures restarts-from-one: window > 0 && old(pid.lastFaultAtNano.v) > 0 && pid.lastFaultAtNano.v - old(pid.lastFaultAtNano.v) > int64(window) ==> result == 1
+//@   ensures otherwise-increments: !(window > 0 && old(pid.lastFaultAtNano.v) > 0 && pid.lastFaultAtNano.v - old(pid.lastFaultAtNano.v) > int64(window)) ==> result == old(pid.consecutiveFaults.v) + 1
+//@   ensures counter-is-result: pid.consecutiveFaults.v == result
+
+// ---------------------------------------------------------------------------
+//@ property C21
+
+// rr_slot is the abstraction function of the round-robin cursor: the index of
+// the routee the next routed message goes to.
+//@ spec func rr_slot(next uint32, n int) int = int(next) % n
